@@ -530,7 +530,19 @@ fn static_pair() -> impl Strategy<Value = (String, String)> {
             4 => format!("{v}x"),
             _ => v.chars().skip(1).collect(),
         };
-        (n, v2)
+        // the name itself in a case variant (arbitrary UTF-8 names are in the property's domain)
+        let n2 = match m {
+            1 | 4 => n.to_ascii_uppercase(),
+            3 => {
+                let mut c = n.chars();
+                match c.next() {
+                    Some(f) => f.to_ascii_uppercase().to_string() + c.as_str(),
+                    None => String::new(),
+                }
+            }
+            _ => n,
+        };
+        (n2, v2)
     })
 }
 
@@ -820,6 +832,9 @@ pub fn run(run: &Run) {
             if c.fields.iter().any(|(n, v)| rq::STATIC_TABLE.iter().any(|r| r.0 == n && r.1 != v && r.1.eq_ignore_ascii_case(v))) {
                 labels.push("headers:static-value-case-variant");
             }
+            if c.fields.iter().any(|(n, _)| rq::STATIC_TABLE.iter().any(|r| r.0 != n && r.0.eq_ignore_ascii_case(n))) {
+                labels.push("headers:static-name-case-variant");
+            }
             match guarded(|| test_headers(c)) {
                 Ok(()) => Outcome::pass_l(!c.fields.is_empty(), labels),
                 Err((s, m)) => Outcome::fail(s, m),
@@ -827,7 +842,7 @@ pub fn run(run: &Run) {
         },
         |c| serde_json::to_value(c).unwrap(),
     );
-    for l in ["headers:static-exact", "headers:static-name-only", "headers:literal-name", "headers:value>=127", "headers:non-ascii", "headers:static-value-case-variant"] {
+    for l in ["headers:static-exact", "headers:static-name-only", "headers:literal-name", "headers:value>=127", "headers:non-ascii", "headers:static-value-case-variant", "headers:static-name-case-variant"] {
         run.essential(l);
     }
 
